@@ -226,9 +226,10 @@ def p_rules(p: Project, rep: Report):
     why = "end tags are not routed to end() / start tags to _start()"
     if ok:
         for en_ in ends:
+            mx = Expander(fmf)
             for c in en_.calls():
-                if text(c.func) == "self.end" and not (c.args and text(c.args[0]) == f"{tagp}[1:]"):
-                    ok, why = False, f"an end tag is closed as {text(c.args[0]) if c.args else None}, not as the tag name without its '/'"
+                if text(c.func) == "self.end" and not (c.args and mx.t(c.args[0]) in (f"{tagp}[1:]", f"{tagp}.lstrip('/')", f"{tagp}.removeprefix('/')")):
+                    ok, why = False, f"an end tag is closed as {mx.t(c.args[0]) if c.args else None}, not as the tag name without its '/'"
             for pth in mpaths:
                 cb = pth.conds_before(en_.id)
                 if cb is None:
